@@ -28,7 +28,7 @@ func init() {
 	histChecks["C05"] = func(tier string) []*hist.Scenario {
 		depth := 5
 		if tier == "thorough" {
-			depth = 7
+			depth = 6
 		}
 		a := &hist.Scenario{
 			ID: "C05/ordered+sibling", Prop: "C05", Depth: depth, Drain: true,
@@ -46,7 +46,7 @@ func init() {
 			},
 		}
 		b := &hist.Scenario{
-			ID: "C05/ordered+seek+prune", Prop: "C05", Depth: d(tier, 5, 7), Drain: true,
+			ID: "C05/ordered+seek+prune", Prop: "C05", Depth: d(tier, 6, 7), Drain: true,
 			Cfg: model.Cfg{Topics: []string{"T0"}, Subs: []model.SubCfg{
 				{Name: "S0", Topic: "T0", Ordered: true, Retention: 10 * time.Minute},
 			}},
@@ -60,7 +60,7 @@ func init() {
 			},
 		}
 		c := &hist.Scenario{
-			ID: "C05/ordered+deadletter", Prop: "C05", Depth: d(tier, 5, 7), Drain: true,
+			ID: "C05/ordered+deadletter", Prop: "C05", Depth: d(tier, 6, 8), Drain: true,
 			Cfg: model.Cfg{Topics: []string{"T0", "TD"}, Subs: []model.SubCfg{
 				{Name: "S0", Topic: "T0", Ordered: true, DLTopic: "TD", MaxAttempts: 1},
 				{Name: "SD", Topic: "TD", Ordered: true},
